@@ -139,6 +139,28 @@ func runOpPlain(w workload, shared []*subject, o wop) string {
 		}
 		sn := s.snap()
 		return fmt.Sprintf("%v|%v", sn.Fields, sn.Views)
+	case "hammer-op":
+		// the operation named by Obs (export | report | decode | query) repeated Count times
+		// in a tight loop; the result is the set of distinct answers (one, sequentially)
+		n := o.Count
+		if n < 0 || n > 1000000 {
+			n = 0
+		}
+		inner := o
+		inner.Kind, inner.Obs = o.Obs, "score"
+		if inner.Kind == "hammer" || inner.Kind == "hammer-op" {
+			return ""
+		}
+		set := map[string]bool{}
+		for r := 0; r < n; r++ {
+			set[runOpPlain(w, shared, inner)] = true
+		}
+		var vals []string
+		for v := range set {
+			vals = append(vals, v)
+		}
+		sort.Strings(vals)
+		return fmt.Sprintf("%d distinct: %s", len(vals), trunc(strings.Join(vals, " || ")))
 	case "hammer":
 		// a tight loop of top-level Score() calls alternating over the shared objects; the
 		// result is the set of distinct scores each object answered (one each, sequentially)
@@ -297,6 +319,9 @@ var checkC16 = register("C16/workload", func(w workload) string {
 			if so.Kind == "hammer" && so.Count > 2*len(shared) {
 				so.Count = 2 * len(shared) // sequentially every call of an object answers the same
 			}
+			if so.Kind == "hammer-op" && so.Count > 2 {
+				so.Count = 2
+			}
 			if want := runOp(w, shared, so); got[g][k] != want {
 				return fmt.Sprintf("goroutine %d op %d (%+v): concurrent result %q differs from the sequential result %q", g, k, o, trunc(got[g][k]), trunc(want))
 			}
@@ -448,6 +473,35 @@ func TestC16(t *testing.T) {
 			c.rec.SetExtra(fmt.Sprintf("pair_hammer_distinct_subscores_v%s", ver), len(reps))
 		}
 		c.rec.Bulk("pair-hammer", evals, evals, map[string]int64{"pair-hammer:two-distinct-subscores": evals})
+	}
+	// ---- operation hammer: every goroutine repeats one export / report / decode in a tight
+	// loop, different goroutines with different templates, languages and vectors. Caches of
+	// the last template, the last language or the last vector that are published in more than
+	// one step are torn only when different keys arrive within nanoseconds of each other.
+	{
+		nviol := 0
+		var evals int64
+		pool := []poolEntry{
+			{Ver: 3, Level: 2, Input: "CVSS:3.1/AV:A/AC:H/PR:L/UI:N/S:C/C:L/I:H/A:L/E:P/RL:O/RC:U/CR:L/IR:M/AR:L/MAV:P/MAC:L/MPR:L/MUI:R/MS:C/MC:H/MI:H/MA:H"},
+			{Ver: 3, Level: 0, Input: "CVSS:3.0/AV:N/AC:L/PR:N/UI:N/S:U/C:H/I:H/A:H"},
+			{Ver: 3, Level: 1, Input: "CVSS:3.1/S:U/AV:N/AC:L/PR:H/UI:N/C:L/I:L/A:N/E:F/RL:X"},
+			{Ver: 2, Level: 2, Input: "AV:N/AC:L/Au:N/C:P/I:P/A:C/E:F/RL:OF/RC:C/CDP:H/TD:H/CR:M/IR:M/AR:H"},
+			{Ver: 3, Level: 2, Input: "CVSS:3.1/AV:N/AC:L/PR:N/UI:N/S:U/C:H/I:H/A:H/E:X/RL:BAD"},
+			{Ver: 2, Level: 0, Input: "AV:L/AC:H/Au:M/C:N/I:N/A:P"},
+		}
+		kinds := []string{"export", "export", "report", "decode"}
+		for round := 0; round < int(pick(6, 60)) && nviol == 0; round++ {
+			w := workload{Procs: 16, Pool: pool}
+			kind := kinds[(round+shard)%len(kinds)]
+			for g := 0; g < 16; g++ {
+				o := wop{Kind: "hammer-op", Obs: kind, Idx: (g + round) % len(pool), Count: int(pick(250, 2500)),
+					Lang: c16Langs[(g/2+round)%len(c16Langs)], Tpl: c16Templates[(g+round+shard)%len(c16Templates)]}
+				w.Goroutines = append(w.Goroutines, []wop{o})
+			}
+			evals++
+			evalEnum(c, "workload", w, checkC16, &nviol)
+		}
+		c.rec.Bulk("operation-hammer", evals, evals, map[string]int64{"operation-hammer": evals})
 	}
 	tpls := append([]string{"{{range $i, $e := .Version}}{{$e}}{{end}}", "{{if eq .SeverityValue \"High\"}}!{{end}}{{.Version}}"}, c16Templates...)
 	c.rapidStage("workloads", pick(1600, 24000), func(rt *rapid.T) {
